@@ -109,4 +109,17 @@ def intersectionTestCuboidCuboid (pos12 : Iso3 K) (he1 he2 : V3 K) : Bool :=
   let sep3 := (satEdgeTwoway he1 he2 pos12).1
   decide (sep3 ≤ 0)
 
+/-! ## follow-up 2: closed form of the contact distance of two rectangles with parallel axes (2-D)
+`query::contact(pos1, Cuboid(he1), pos1 * Translation(t), Cuboid(he2), prediction).dist` goes through GJK (apart) or
+GJK + EPA (overlapping); for parallel axes the answer has a closed form in the per-axis gaps
+`g = |t| - (he1 + he2)`: the Euclidean norm of the positive gaps when some gap is positive (the distance), otherwise the
+largest (least negative) gap (minus the minimum separating translation).  This is a *specification* model (the
+iterative algorithms are not transliterated): its correspondence leg is a relative tolerance, see `relations.json`. -/
+def rectSignedDist (he1 he2 t : V2 K) : K :=
+  let gx := nabs t.x - (he1.x + he2.x)
+  let gy := nabs t.y - (he1.y + he2.y)
+  if 0 < gx then (if 0 < gy then Num.sqrt (gx * gx + gy * gy) else gx)
+  else if 0 < gy then gy
+  else nmax gx gy
+
 end Model
